@@ -7,7 +7,8 @@ from ..runner import Part
 
 PROP = "C03"
 RULE = (
-    "real compositions (DAGs with pull-based components, delay-resolved rings, adapter chains of every kind, "
+    "real compositions (DAGs with pull-based components, delay-resolved rings - a ring whose delays suffice must run, "
+    "a circular-coupling error is excused only without or with insufficient delay -, adapter chains of every kind, "
     "start offsets, varying steps, all listing orders) with the end time drawn on a step-grid point of some "
     "component, between grid points, equal to the composition start, before the start of a late component, or "
     "beyond everything. Whole-history oracle: run returns within the deterministic update bound; every "
@@ -77,7 +78,8 @@ def check(spec, ctx):
         ctx.violation("unbounded-run", msg)
         return
     if outcome != "ok":
-        if outcome in ("FinamCircularCouplingError",) and spec.get("mode"):
+        # a ring without (or with an insufficient) delay need not run; one whose delays suffice is a valid composition
+        if outcome in ("FinamCircularCouplingError",) and spec.get("mode") in ("none", "partial"):
             ctx.event("ring-not-run")
             return
         ctx.violation(f"run-fails:{outcome}", f"valid composition did not run: {msg} | links {spec['links']} end {end}")
